@@ -209,7 +209,10 @@ impl<'a> Gen<'a> {
 pub struct Acopy(pub flatty::AlignedBytes, pub usize);
 impl Acopy {
     pub fn new(bytes: &[u8], align: usize) -> Self {
-        let mut a = flatty::AlignedBytes::new(bytes.len().max(align.max(1)), align.max(1));
+        // slack behind the copy: a mapped unsized struct rounds its extent up to ALIGN and may
+        // span a few bytes more than the slice it was mapped from (C04 territory); keep that
+        // inside the allocation so that the Miri tier judges C06/C10 and not C04
+        let mut a = flatty::AlignedBytes::new(bytes.len() + 2 * align.max(1), align.max(1));
         a.fill(0);
         a[..bytes.len()].copy_from_slice(bytes);
         Acopy(a, bytes.len())
